@@ -418,6 +418,26 @@ func mon14Workload(args []string) int {
 					amtStr = am[rng.Intn(len(am))]
 					txs = []pb.Transaction{world.Transfer(sK, rAddr, amtStr)}
 					shape["single:"+classifyAmount(amtStr, bal, fee)] = true
+				} else if rng.Intn(4) == 0 {
+					// an earlier transaction of the block touches the receiver, then a sender not yet seen in the block
+					// transfers an amount it can cover - but not together with the fee: the transfer is applied and
+					// then undone, the receiver must not keep the amount
+					sK = []*harness.Key{harness.User(0), harness.User(1)}[rng.Intn(2)]
+					rAddr = []*types.Address{harness.User(3).Addr, harness.DetKey("fresh-receiver").Addr, harness.AddrStore}[rng.Intn(3)]
+					bal := pre[sK.Addr.String()]
+					if bal == nil {
+						bal = big.NewInt(0)
+					}
+					fee := new(big.Int).Mul(big.NewInt(21000), big.NewInt(price))
+					amt := new(big.Int).Sub(bal, new(big.Int).Div(fee, big.NewInt(int64(1+rng.Intn(3)))))
+					if amt.Sign() > 0 {
+						txs = []pb.Transaction{world.Transfer(harness.User(2), rAddr, "1"), world.Transfer(sK, rAddr, amt.String())}
+						shape["pair:covers-amount-not-fee"] = true
+						w.Count("tight_transfers_after_touch", 1)
+					} else {
+						txs = g.genBlock(h)
+					}
+					sK, rAddr = nil, nil
 				} else {
 					txs = g.genBlock(h)
 				}
